@@ -578,30 +578,36 @@ fn scalars(ctx: &mut Ctx) {
     }
     // nested use of the scalar drivers: the input is a Dual64 with a non-unit direction, so every
     // returned component carries the next derivative in its eps part (4th order for third_derivative)
-    for which in 0..2 {
+    // (which = 2: the argument is first sent through recip().recip(), the identity, exact at powers of
+    // two - this brings the chain rule of each outer type, applied to a dual inner type, into the path)
+    for which in 0..3 {
         let p0 = Poly::new(1, which + 30, 5);
-        for &x in &[2i64, -1, 3] {
+        let xlist: [i64; 3] = if which == 2 { [2, -1, 4] } else { [2, -1, 3] };
+        for &x in &xlist {
             let xs = [x];
             let p = if which == 0 { p0.clone().over(&xs) } else { p0.clone() };
             let dir = 3.0;
             let xd = Dual64::new(x as f64, dir);
-            let c = json!({"x": x, "direction": dir, "rational": which == 0});
+            let c = json!({"x": x, "direction": dir, "rational": which == 0, "through_recip_recip": which == 2});
             let dn = |k: usize| p.d(&vec![0usize; k], &xs);
-            let (f, d1) = first_derivative(|t: Dual<Dual64, f64>| p.eval(&[t]), xd);
+            let (f, d1) = first_derivative(|t: Dual<Dual64, f64>| p.eval(&[if which == 2 { t.recip().recip() } else { t }]), xd);
             for (name, got, k) in [("value", f, 0usize), ("d1", d1, 1)] {
                 ctx.check("first_derivative", "nested T=Dual64", &format!("{name}.re"), got.re, dn(k), c.clone());
                 ctx.check("first_derivative", "nested T=Dual64", &format!("{name}.eps"), got.eps, dir * dn(k + 1), c.clone());
             }
-            let (f, d1, d2) = second_derivative(|t: Dual2<Dual64, f64>| p.eval(&[t]), xd);
+            let (f, d1, d2) = second_derivative(|t: Dual2<Dual64, f64>| p.eval(&[if which == 2 { t.recip().recip() } else { t }]), xd);
             for (name, got, k) in [("value", f, 0usize), ("d1", d1, 1), ("d2", d2, 2)] {
                 ctx.check("second_derivative", "nested T=Dual64", &format!("{name}.re"), got.re, dn(k), c.clone());
                 ctx.check("second_derivative", "nested T=Dual64", &format!("{name}.eps"), got.eps, dir * dn(k + 1), c.clone());
             }
-            let (f, d1, d2, d3) = third_derivative(|t: Dual3<Dual64, f64>| p.eval(&[t]), xd);
+            let (f, d1, d2, d3) = third_derivative(|t: Dual3<Dual64, f64>| p.eval(&[if which == 2 { t.recip().recip() } else { t }]), xd);
             for (name, got, k) in [("value", f, 0usize), ("d1", d1, 1), ("d2", d2, 2), ("d3", d3, 3)] {
                 ctx.check("third_derivative", "nested T=Dual64", &format!("{name}.re"), got.re, dn(k), c.clone());
                 ctx.check("third_derivative", "nested T=Dual64", &format!("{name}.eps"), got.eps, dir * dn(k + 1), c.clone());
             }
+        }
+        if which == 2 {
+            continue;
         }
         // mixed partials with nested inputs: directions (2, -1) on (x, y)
         let p = Poly::new(2, which + 32, 4);
@@ -852,8 +858,54 @@ fn scalars(ctx: &mut Ctx) {
     }
 }
 
+/// an integrand written with the iterator adaptors, by reference and by value
+fn reduce<D>(v: &[D]) -> D
+where
+    D: DualNum<f64> + std::iter::Sum + for<'a> std::iter::Sum<&'a D> + std::iter::Product + for<'a> std::iter::Product<&'a D>,
+{
+    let s: D = v.iter().sum();
+    let q: D = v.iter().product();
+    let s2: D = v.iter().cloned().sum();
+    let q2: D = v.iter().cloned().product();
+    s * 2.0 + q + s2 * 4.0 + q2 * 8.0
+}
+
+/// closures that reduce their arguments with `sum()` / `product()`: f = 6 sum x + 9 prod x
+fn iterator_closures(ctx: &mut Ctx) {
+    let pt = [2.0f64, -3.0, 5.0];
+    let n = 3;
+    let prod_except = |skip: &[usize]| (0..n).filter(|k| !skip.contains(k)).map(|k| pt[k]).product::<f64>();
+    let fval = 6.0 * pt.iter().sum::<f64>() + 9.0 * prod_except(&[]);
+    let c = json!({"point": pt, "integrand": "6 sum(x) + 9 prod(x) through iter().sum(), iter().product(), cloned().sum(), cloned().product()"});
+    let (f, g) = gradient(|v: SVector<DualSVec64<3>, 3>| reduce(v.as_slice()), SVector::from(pt));
+    ctx.check("gradient", "iterator closure n=3", "value", f, fval, c.clone());
+    for i in 0..n {
+        ctx.check("gradient", "iterator closure n=3", &format!("g[{i}]"), g[i], 6.0 + 9.0 * prod_except(&[i]), c.clone());
+    }
+    let (f, g) = gradient(|v: DVector<DualDVec64>| reduce(v.as_slice()), DVector::from_row_slice(&pt));
+    ctx.check("gradient", "iterator closure dyn n=3", "value", f, fval, c.clone());
+    for i in 0..n {
+        ctx.check("gradient", "iterator closure dyn n=3", &format!("g[{i}]"), g[i], 6.0 + 9.0 * prod_except(&[i]), c.clone());
+    }
+    let (f, g, h) = hessian(|v: SVector<Dual2SVec64<3>, 3>| reduce(v.as_slice()), SVector::from(pt));
+    ctx.check("hessian", "iterator closure n=3", "value", f, fval, c.clone());
+    for i in 0..n {
+        ctx.check("hessian", "iterator closure n=3", &format!("g[{i}]"), g[i], 6.0 + 9.0 * prod_except(&[i]), c.clone());
+        for j in 0..n {
+            ctx.check("hessian", "iterator closure n=3", &format!("h[{i},{j}]"), h[(i, j)], if i == j { 0.0 } else { 9.0 * prod_except(&[i, j]) }, c.clone());
+        }
+    }
+    let (f, d1, d2, d3) = third_derivative(|x: Dual3_64| reduce(&[x, x * 2.0, x + 1.0]), 2.0);
+    // 6 (4x + 1) + 9 (2x^3 + 2x^2) at x = 2
+    ctx.check("third_derivative", "iterator closure", "value", f, 6.0 * 9.0 + 9.0 * 24.0, c.clone());
+    ctx.check("third_derivative", "iterator closure", "d1", d1, 24.0 + 9.0 * (24.0 + 8.0), c.clone());
+    ctx.check("third_derivative", "iterator closure", "d2", d2, 9.0 * (24.0 + 4.0), c.clone());
+    ctx.check("third_derivative", "iterator closure", "d3", d3, 9.0 * 12.0, c);
+}
+
 fn run_all(st: &mut Stats) {
     let mut ctx = Ctx { st };
+    iterator_closures(&mut ctx);
     grad_static!(ctx, 1, 2, 3, 4, 5, 6);
     jac_static!(ctx, 1, 1, 2, 3, 4, 5, 6);
     jac_static!(ctx, 2, 1, 2, 3, 4, 5, 6);
@@ -898,7 +950,7 @@ fn main() {
         mode: cli.mode,
         seed: cli.seed,
         start,
-        rule: "the twenty public drivers x input lengths n = 0..6 and output lengths m = 1..6 (static where the type system allows: gradient/hessian n = 1..6, jacobian all (m,n) in 1..6 x 1..6, partial_hessian (m,n) <= 4 and (6,1),(6,6),(1,6); dynamic for all lengths incl. 0) x two integer points x asymmetric integer polynomials containing every monomial of degree <= 3 with pairwise distinct coefficients (so every partial up to order 3 is non-zero and no two are equal) and, for every second function, that polynomial divided by a linear form equal to 2 at the point (quotient rules; all values stay small dyadic rationals); all n^3 index triples of third_partial_derivative_vec for n <= 5; try_ variants with unit-struct, String and integer errors; constant / partially constant functions (absent parts); nested use T = Dual64 (gradient, first/second/third_derivative, second_partial_derivative: the eps parts carry one more derivative order); non-polynomial integrands against reference Taylor coefficients; squares through powi(2) / powf(2) / &q * &q; results with hand-built presence patterns (all 4 of Dual2Vec, all 8 of HyperDualVec); closures written with nalgebra's vector API (norm, norm_squared, normalize, dot); polar coordinates (sqrt, atan2 in both branches and all quadrants) through gradient, hessian, jacobian, partial_hessian and second_partial_derivative. Non-trivial = a derivative entry whose exact value is neither 0 nor 1.".into(),
+        rule: "the twenty public drivers x input lengths n = 0..6 and output lengths m = 1..6 (static where the type system allows: gradient/hessian n = 1..6, jacobian all (m,n) in 1..6 x 1..6, partial_hessian (m,n) <= 4 and (6,1),(6,6),(1,6); dynamic for all lengths incl. 0) x two integer points x asymmetric integer polynomials containing every monomial of degree <= 3 with pairwise distinct coefficients (so every partial up to order 3 is non-zero and no two are equal) and, for every second function, that polynomial divided by a linear form equal to 2 at the point (quotient rules; all values stay small dyadic rationals); all n^3 index triples of third_partial_derivative_vec for n <= 5; try_ variants with unit-struct, String and integer errors; constant / partially constant functions (absent parts); nested use T = Dual64 (gradient, first/second/third_derivative, second_partial_derivative: the eps parts carry one more derivative order); non-polynomial integrands against reference Taylor coefficients; squares through powi(2) / powf(2) / &q * &q; results with hand-built presence patterns (all 4 of Dual2Vec, all 8 of HyperDualVec); closures written with nalgebra's vector API (norm, norm_squared, normalize, dot) and with the iterator adaptors sum() / product() by reference and by value; the identity recip().recip() in front of a polynomial under the nested scalar drivers; polar coordinates (sqrt, atan2 in both branches and all quadrants) through gradient, hessian, jacobian, partial_hessian and second_partial_derivative. Non-trivial = a derivative entry whose exact value is neither 0 nor 1.".into(),
         assumptions: vec!["expected values by symbolic differentiation of the coefficient tables in integer arithmetic (Leibniz rule for the quotient by the linear form); all values are small integers or dyadic rationals, so equality is exact".into()],
         extra: json!({"oracle": "exact integer partial derivatives; Err identity; Ok results bit-equal to the infallible variants"}),
         exhaustive: true,
